@@ -1394,6 +1394,10 @@ pub fn c16_at_end(ck: &mut Checker, sim: &mut Sim) {
     if !sim.peers.iter().any(|p| p.session.is_some()) {
         return;
     }
+    // a banned honest peer (reported under C05) is away for five minutes: no bound applies
+    if sim.violations.iter().any(|v| v.property == "C05") {
+        return;
+    }
     let keys: Vec<(bool, Vec<u8>)> = ck.c16.st.keys().cloned().collect();
     for (is_tx, h) in keys {
         let hash = Byte32::from_slice(&h).unwrap();
